@@ -165,6 +165,22 @@ Theorem C20_extend_clash_or_register : forall x,
   (~ NoDup active \/ (exists n, x_N x = Some n /\ n < fold_right Nat.max 0 active + 1)) ->
   validate_extend x = Raise ValueError.
 Proof. exact extend_complete_clash_or_register. Qed.
+(* the register-size test precedes the single-pulse shortcut: also ONE pulse whose register has exactly as many qubits as
+   the pulse is rejected when its highest qubit index does not fit *)
+Theorem C20_extend_register_single_or_many : forall x n,
+  x_entries x <> [] -> Forall (fun e => p_ispulse (x_pulse e) = true) (x_entries x) ->
+  Forall (entry_dim_ok (x_dpq x)) (x_entries x) ->
+  (exists t, Forall (fun v => v = t) (map (fun e => p_dt (x_pulse e)) (x_entries x))) ->
+  x_N x = Some n -> n < fold_right Nat.max 0 (flat_map (fun e => qubit_list (x_qubits e)) (x_entries x)) + 1 ->
+  validate_extend x = Raise ValueError.
+Proof. exact extend_complete_register. Qed.
+Example C20_extend_register_before_shortcut :
+  validate_extend (Build_extend_d [Build_ext_entry (one_pulse 4) (QTuple [1; 2]) None] 2 (Some 2) 2 None None None false) = Raise ValueError /\
+  validate_extend (Build_extend_d [Build_ext_entry (one_pulse 2) (QInt 1) None] 2 (Some 1) 2 None None None false) = Raise ValueError /\
+  validate_extend (Build_extend_d [Build_ext_entry (one_pulse 2) (QTuple [1]) None] 2 (Some 1) 2 None None None false) = Raise ValueError /\
+  validate_extend (Build_extend_d [Build_ext_entry (one_pulse 4) (QTuple [0; 1]) None] 2 (Some 2) 2 None None (Some true) false) = ok /\
+  validate_extend (Build_extend_d [Build_ext_entry (one_pulse 2) (QInt 0) None] 2 None 2 None None (Some true) false) = ok.
+Proof. exact extend_register_before_shortcut. Qed.
 Theorem C20_remap_complete : forall r, p_d (r_pulse r) = r_dpq r ^ r_N r ->
   (r_order_ints r = false -> validate_remap r = Raise TypeError) /\
   (r_order_ints r = true -> length (r_order r) <> r_N r -> validate_remap r = Raise ValueError) /\
